@@ -262,7 +262,7 @@ def run(chk):
     for _ in range(1500 if thorough else 400):
         max_log, nsym_max = rng.choice([(9, 36), (9, 53), (8, 32), (6, 13)])
         n = rng.range(1, nsym_max)
-        style = rng.below(6)
+        style = rng.below(8)
         if style == 0:
             counts = [rng.below(5) for _ in range(n)]
         elif style == 1:
@@ -276,8 +276,25 @@ def run(chk):
                 counts[rng.below(n)] += rng.range(1, 3)
         elif style == 4:
             counts = [rng.range(0, 1 << rng.below(17)) for _ in range(n)]
-        else:
+        elif style == 5:
             counts = [max(0, 300 - 17 * i + rng.below(5)) for i in range(n)]
+        else:
+            # a histogram that needs no scaling (smallest count 1, largest <= number of symbols) whose total exceeds the
+            # largest table by a little: the surplus is then taken off the small probabilities one by one
+            n = nsym_max
+            k = max(2, n // 3)
+            d = rng.range(1, k)
+            rest = n - 1 - k
+            total_rest = (1 << max_log) + d - 1 - 2 * k
+            base = total_rest // rest
+            counts = [1] + [2] * k + [base] * rest
+            for _ in range(total_rest - base * rest):
+                counts[1 + k + rng.below(rest)] += 1
+            if max(counts) > n:
+                counts = [1] + [2] * k + [base] * rest
+            for i in range(len(counts) - 1, 0, -1):
+                j = rng.below(i + 1)
+                counts[i], counts[j] = counts[j], counts[i]
         if sum(counts) == 0:
             counts[rng.below(n)] = 1
         while counts and counts[-1] == 0:
